@@ -162,7 +162,10 @@ class Target:
                     _, mb, eb = dec_value(rnd, kind)
                 self.vals[(ab, k)] = {"va": (ma, ea), "vb": (mb, eb)}
         self.vals_x = {"va": (123457, -3), "vb": (765433, -2)}
-        self.q = {"Q1": (100000, -2), "Q1n": (1000005, -3), "Q2": (2000, 0)}
+        # Q1n is within the reader's absolute tolerance 0.01 of Q1; Q2 stands for any scale further away than that:
+        # far (2000, 500) as well as close in relative terms (1004, 996, 1000.02)
+        self.q = {"Q1": (100000, -2), "Q1n": (1000005, -3),
+                  "Q2": rnd.choice([(2000, 0), (1004, 0), (996, 0), (100002, -2), (5, 2), (99998, -2)])}
         self.badclass = rnd.choice(sorted(BAD_VAL))
 
     def describe(self):
